@@ -166,6 +166,10 @@ func (er *encRun) encodeCase(stream string, t *target, m protoreflect.Message, m
 	for k, n := range facts.kinds {
 		res.Distribution["field_"+k] += n
 	}
+	if model && len(o.Out) > maxModelOut {
+		res.Count("model_skipped_large_document")
+		model = false
+	}
 	if model {
 		strict := facts.maxMap <= 1
 		er.em.add(fmt.Sprintf("CEnc %s %s %s %s %s %s %s %s %s", t.Name, codecgen.BytesTerm(t.Env.Root), term,
@@ -229,10 +233,23 @@ func runC08(cfg *vh.Config) error {
 		}
 		return vh.Pick(r, targets)
 	}
+	for _, t := range targets {
+		for _, m := range emptySubMessages(t.New) {
+			er.encodeCase("empty-submessage", t, m, true)
+		}
+	}
+	nBig := cfg.Scale(40, 1500)
+	for i := 0; i < nBig; i++ {
+		t := pick()
+		g := &msgGen{r: r, maxDepth: r.Range(1, 3), fieldPct: vh.Pick(r, []int{4, 10, 25}), maxEntries: 2, big: true, emptySubs: 20}
+		m := t.New()
+		g.fill(m, 1)
+		er.encodeCase("big", t, m, true)
+	}
 	nSparse := cfg.Scale(300, 6000)
 	for i := 0; i < nSparse; i++ {
 		t := pick()
-		g := &msgGen{r: r, maxDepth: 2, fieldPct: vh.Pick(r, []int{3, 6}), maxEntries: 2}
+		g := &msgGen{r: r, maxDepth: 2, fieldPct: vh.Pick(r, []int{3, 6}), maxEntries: 2, emptySubs: 30}
 		m := t.New()
 		g.fill(m, 1)
 		er.encodeCase("sparse", t, m, true)
@@ -240,7 +257,7 @@ func runC08(cfg *vh.Config) error {
 	nMsg := cfg.Scale(350, 8000)
 	for i := 0; i < nMsg; i++ {
 		t := pick()
-		g := &msgGen{r: r, maxDepth: r.Range(1, 5), fieldPct: vh.Pick(r, []int{10, 20, 35, 60}), maxEntries: r.Range(1, 3)}
+		g := &msgGen{r: r, maxDepth: r.Range(1, 5), fieldPct: vh.Pick(r, []int{10, 20, 35, 60}), maxEntries: r.Range(1, 3), emptySubs: vh.Pick(r, []int{0, 10, 30})}
 		m := t.New()
 		g.fill(m, 1)
 		er.encodeCase("message", t, m, true)
@@ -322,6 +339,9 @@ func libPrinters(cfg *vh.Config, er *encRun) {
 		n := i % 40
 		if i >= 80 {
 			n = r.Range(0, 100)
+		}
+		if i >= 110 { // around the 1 KiB chunk boundary (longer values: direct oracle of the big stream)
+			n = 1020 + i%10
 		}
 		b := r.Bytes(n)
 		em.add(fmt.Sprintf("CB64Enc %s %s", codecgen.BytesTerm(string(b)), codecgen.BytesTerm(base64.StdEncoding.EncodeToString(b))), "b64enc", fmt.Sprintf("%x", b), nil)
